@@ -30,6 +30,12 @@ void *__real_memmove(void *, const void *, size_t);
 void *__real_memset(void *, int, size_t);
 }
 
+#ifdef REENT_VARIANT_GCC
+#define REENT_ENGINE_NAME "reentg"
+#else
+#define REENT_ENGINE_NAME "reent"
+#endif
+
 namespace reent {
 
 static const BindFormat *find_format(const std::string &n) {
@@ -88,7 +94,7 @@ static std::string gen(const std::string &prop, uint64_t base, uint64_t idx, boo
     case 4: sched = strf("afterstore:%g", (double[]){0.05, 0.3, 1.0}[r.below(3)]); break;
     default: sched = strf("p:%g", 0.02); break;
     }
-    line(strf("plan v1 engine=reent prop=%s seed=0x%llx idx=%llu", prop.c_str(), (unsigned long long)seed, (unsigned long long)idx));
+    line(strf("plan v1 engine=" REENT_ENGINE_NAME " prop=%s seed=0x%llx idx=%llu", prop.c_str(), (unsigned long long)seed, (unsigned long long)idx));
     line(strf("cfg tasks=%d sched=%s sseed=0x%llx", ntasks, sched.c_str(), (unsigned long long)r.next()));
     int next_obj = 0;
     std::vector<std::string> objlines, calllines;  // (set-up calls come first in calllines)
@@ -300,6 +306,7 @@ struct World {
     uint64_t pr_badargs = 0, pr_inside = 0, pr_rmw = 0, pr_shared = 0, pr_static_load = 0, pr_unknown_load = 0, loads = 0, stores = 0, calls = 0;
     sim::Digest digest;
     uint64_t events = 0;
+    uint64_t static_bytes = 0;
     bool verbose = false;
 };
 static World *W = nullptr;
@@ -429,6 +436,10 @@ static inline bool lib_active() {
 }
 void __sanitizer_cov_trace_pc_guard(uint32_t *guard) {
     sim::cov_hit(*guard);
+    if (lib_active()) preempt_point(false, 0);
+}
+// basic-block callback of the gcc-built library (gcc has no load/store callbacks): preemption points only
+void __sanitizer_cov_trace_pc(void) {
     if (lib_active()) preempt_point(false, 0);
 }
 #define LOADCB(N) void __sanitizer_cov_load##N(void *a) { if (lib_active()) { check_access((uintptr_t)a, N, false, (uintptr_t)__builtin_return_address(0)); preempt_point(false, (uintptr_t)a); } }
@@ -707,6 +718,33 @@ static uint64_t do_call(const Call &c, bool &skipped) {
 
 struct Snapshot { std::vector<std::vector<uint64_t>> results; std::vector<uint8_t> arena; };
 
+// Writable static storage of the library objects (.data/.bss between the link-time markers): whatever the callers do, it
+// must read the same afterwards. This also sees writes that no instrumentation callback reports (code built by another
+// compiler, inline assembly, stores made on the library's behalf by an uninstrumented callee).
+struct StaticSnap { std::vector<uint8_t> data, bss; };
+static StaticSnap take_static() {
+    StaticSnap s;
+    auto d = sim::g_symtab.repo_data(), b = sim::g_symtab.repo_bss();
+    if (d.hi > d.lo) s.data.assign((const uint8_t *)d.lo, (const uint8_t *)d.hi);
+    if (b.hi > b.lo) s.bss.assign((const uint8_t *)b.lo, (const uint8_t *)b.hi);
+    return s;
+}
+static void check_static(const StaticSnap &before, const char *when) {
+    auto cmp = [&](const std::vector<uint8_t> &old, uint64_t lo, const char *sec) {
+        const uint8_t *cur = (const uint8_t *)lo;
+        for (size_t i = 0; i < old.size(); i++)
+            if (cur[i] != old[i]) {
+                std::string sym = sim::g_symtab.data_sym(lo + i);
+                std::string base = sym.substr(0, sym.find('+'));
+                violation("shared-state:static-data:" + base, strf("%s of the library changed during the %s execution: %s (address %p) held 0x%02x before the callers ran and holds 0x%02x now",
+                                                                   sec, when, sym.c_str(), (void *)(lo + i), old[i], cur[i]));
+            }
+    };
+    cmp(before.data, sim::g_symtab.repo_data().lo, ".data");
+    cmp(before.bss, sim::g_symtab.repo_bss().lo, ".bss");
+    W->static_bytes = before.data.size() + before.bss.size();
+}
+
 static void init_arena() {
     World &w = *W;
     __real_memset(kArena, 0xEE, kArenaSize);
@@ -839,13 +877,16 @@ static void exec(const std::string &text, bool verbose) {
     // phase 1: sequential reference (monitor on, no preemption)
     w.rng.reseed(sseed);
     std::string saved_policy = w.policy;
+    StaticSnap st0 = take_static();
     Snapshot seq = run_phase(false);
     ev("phase", 1, hash_bytes(seq.arena.data(), seq.arena.size()), 0);
+    check_static(st0, "sequential");
     // phase 2: interleaved
     w.rng.reseed(sseed);
     w.policy = saved_policy;
     Snapshot par = run_phase(true);
     ev("phase", 2, hash_bytes(par.arena.data(), par.arena.size()), w.preemptions);
+    check_static(st0, "interleaved");
     for (size_t t = 0; t < seq.results.size(); t++) {
         size_t n = std::min(seq.results[t].size(), par.results[t].size());
         for (size_t i = 0; i < n; i++)
@@ -866,6 +907,7 @@ static void exec(const std::string &text, bool verbose) {
     g_res.sched_digest = w.preemptions * 1315423911ULL ^ w.digest.h;
     g_res.nontrivial = w.preemptions > 0 && w.prog.size() >= 2;
     g_res.counters["calls"] = w.calls;
+    g_res.counters["static_bytes_compared"] = w.static_bytes;
     g_res.counters["loads_checked"] = w.loads;
     g_res.counters["stores_checked"] = w.stores;
     g_res.counters["preemptions"] = w.preemptions;
@@ -923,7 +965,7 @@ static void exec_entry(const std::string &text, bool verbose) {
 
 int main(int argc, char **argv) {
     sim::Engine e;
-    e.name = "reent";
+    e.name = REENT_ENGINE_NAME;
     e.property = "C16";
     e.gen = reent::gen;
     e.exec = reent::exec_entry;
@@ -944,5 +986,19 @@ int main(int argc, char **argv) {
     e.thorough_runs = 690000;
     e.quick_wall_cap = 150;
     e.thorough_wall_cap = 1500;
+#ifdef REENT_VARIANT_GCC
+    // second build: the library as the repository's own default toolchain compiles it (gcc -O2). gcc offers basic-block callbacks
+    // only, so this variant decides by interleaving + sequential equivalence + the static-storage comparison, not by access ownership.
+    e.rule = "same plans as the clang build, executed against the library compiled by gcc -O2 -fsanitize-coverage=trace-pc: preemption at basic blocks of library "
+             "code, results and memory compared with the sequential execution, .data/.bss of the library compared before/after; distinct = distinct event-log "
+             "digest; non-trivial = at least one preemption inside a library call with >= 2 tasks";
+    e.real_components = {"libopen1722 + libopen1722custom built from /repo/src by gcc -O2 with -fsanitize-coverage=trace-pc",
+                         "call bindings generated from /repo/include and compiled by gcc -O2; hand-written drivers for builders/VSS codec"};
+    e.probes = {"probe.preempted_inside_library_call", "probe.preempted_inside_call_on_shared_pdu", "probe.calls_with_invalid_arguments"};
+    e.quick_runs = 4600;
+    e.thorough_runs = 230000;
+    e.quick_wall_cap = 60;
+    e.thorough_wall_cap = 500;
+#endif
     return sim::driver_main(argc, argv, e);
 }
